@@ -88,9 +88,12 @@ def check(col, prog, tier, profile, fixture=None):
     fk = util.fkey
     adt = util.need_adt(crate, "Writer")
     fs = util.fields_of(adt)
-    BUF = [i for i, f in enumerate(fs) if f["ty"].startswith("[u8;")][0]
-    END = [i for i, f in enumerate(fs) if f["ty"] == "usize"][0]
-    SINK = [i for i, f in enumerate(fs) if "dyn std::io::Write" in f["ty"]][0]
+    bufs_ = [i for i, f in enumerate(fs) if f["ty"].startswith("[u8;")]
+    ends_ = [i for i, f in enumerate(fs) if f["ty"] == "usize"]
+    sinks_ = [i for i, f in enumerate(fs) if "dyn std::io::Write" in f["ty"]]
+    if not (bufs_ and ends_ and sinks_):
+        raise Anchor("Writer is expected to hold its byte buffer, its fill level and its sink as fields of its own (found %s)" % ", ".join("%s: %s" % (f["name"], f["ty"]) for f in fs))
+    BUF, END, SINK = bufs_[0], ends_[0], sinks_[0]
     capt_ = fs[BUF]["ty"].split(";")[1].strip(" ]")
     if capt_.isdigit():
         cap = int(capt_)
@@ -415,6 +418,8 @@ def check(col, prog, tier, profile, fixture=None):
                     col.ok("V8" + sfx, b.loc(), key, "W (S W)* with %d separators, field order" % (arity - 1))
                 else:
                     col.violation("V8" + sfx, "%s|sequence" % fk(b), b.loc(), "tuple writer emits %s; expected the %d components in field order with exactly one ' ' between neighbours" % (seq, arity))
+        elif sty.lstrip("&").replace("alloc::", "std::") in ("str", "std::string::String"):
+            _string_writer(col, crate, b, wb, sfx, helpers)
         elif sty.startswith(("std::vec::Vec<", "alloc::vec::Vec<")) or (sty.startswith("[") and sty.endswith("]") and ";" not in sty):
             conv = [m for m in util.methods_of(crate, "Writer") if m.key not in (wb.key, fl.key, wr.key, wc.key) and not util.self_recursive(m)]
             conv += [m for m in crate.bodies if not m.is_closure and m.kind == "Fn" and m.container is None and m.vis != "pub" and not util.self_recursive(m)]
@@ -464,13 +469,106 @@ def check(col, prog, tier, profile, fixture=None):
                 if lis:
                     post_ok = post_ok and not emis(evs[max(lis):])
                 else:
-                    post_ok = post_ok and not emis(evs)   # the empty sequence prints nothing
+                    # a path that never reaches the loop may only be the empty sequence (`if self.is_empty() { return }`);
+                    # `if self.len() == 1 { return }` prints nothing for a one-element vector
+                    # (a path that hands the sequence on - `write_iter(self.iter())`, `self.as_slice().write(w)` - is a
+                    # delegation, judged where the elements are walked)
+                    queries = ("is_empty", "len", "deref", "as_slice", "as_ref", "iter", "into_iter", "first", "last", "split_first", "split_last", "next", "get", "borrow")
+                    hands_on = any(e.kind == "call" and e.extra.get("name") not in queries and not _is(e, wc) and not _is(e, wr) for e in evs)
+                    post_ok = post_ok and not emis(evs) and (hands_on or _known_empty_seq(st))
             form_a = pre_set == {()} and its and all((f is True and it == ["W"]) or (f is False and it == ["S", "W"]) for f, it in its) and {f for f, _ in its} == {True, False}
             form_b = pre_set == {("W",)} and its and all(it == ["S", "W"] for _, it in its)
             if post_ok and (form_a or form_b):
                 col.ok("V8" + sfx, b.loc(), key, "W (S W)*: %s" % ("index 0 without separator, every other element preceded by one ' '" if form_a else "first element, then ' ' + element for the rest"))
             else:
                 col.violation("V8" + sfx, key, b.loc(), "sequence writer must emit one ' ' before every element except the first (and none after the last)")
+
+
+def _string_writer(col, crate, b, wb, sfx, helpers):
+    """V10: a string is written as all of its bytes, in order, once: the writer walks `chunks(K)` of the string's bytes (a
+    loop or `for_each`) handing every chunk to write_bytes exactly once, or hands the whole string on to another string
+    writer; a path that does neither may only be the empty string"""
+    fk = util.fkey
+    hs = [h for h in helpers if h.key != wb.key]
+    I = util.analyser(hs)(b)
+    selfp = ("param", 1, I.names.get(1))
+    key = "%s|every-byte-once" % fk(b)
+
+    def from_self(t):
+        return any(x == selfp for x in [t] + list(subterms(t)))
+
+    def chunk_src_ok(t):
+        """t is chunks(<bytes of self>, _)"""
+        return isinstance(t, tuple) and t and t[0] == "call" and str(t[1]).endswith("::chunks") and from_self(t[2][0])
+
+    ok = bool(I.final_states)
+    why = "no returning path"
+    backs = [s_ for l in I.backedge_states.values() for s_ in l] + list(I.inl_back)
+    for st in backs:
+        evs = st.event_list()
+        li = max(k for k, e in enumerate(evs) if e.kind == "loop")
+        wbs = [e for e in evs[li:] if _is(e, wb)]
+        nx = [e for e in evs[li:] if e.kind == "call" and e.extra.get("name") == "next"]
+        if len(wbs) != 1 or not nx or not any(x == nx[-1].res for x in subterms(wbs[0].args[1])):
+            ok, why = False, "a round of the chunk loop does not hand exactly the current chunk to write_bytes"
+    for st in I.final_states:
+        evs = st.event_list()
+        looped = any(e.kind == "loop" for e in evs)
+        chunks_ = [e for e in evs if e.kind == "call" and e.extra.get("name") == "chunks"]
+        fe = [e for e in evs if e.kind == "call" and e.extra.get("name") == "for_each"]
+        deleg = [e for e in evs if e.kind == "call" and e.extra.get("name") == "write" and (e.extra.get("trait") or "").endswith("Writable") and e.args and (from_self(e.args[0]) or ((e.extra.get("argvals") or [None])[0] is not None and from_self(e.extra["argvals"][0])))]
+        direct = [e for e in evs if _is(e, wb)]
+        if looped and chunks_ and all(from_self(c_.args[0]) for c_ in chunks_) and not direct and not fe:
+            continue
+        if fe and len(fe) == 1 and chunk_src_ok(fe[0].args[0]) and not looped and not direct:
+            clo = fe[0].args[1]
+            cb = crate.by_key.get(clo[1][1]) if clo[0] == "agg" and isinstance(clo[1], tuple) and clo[1][0] == "closure" else None
+            good = cb is not None
+            if good:
+                Ic = util.analyser(hs)(cb)
+                it_ = ("param", 2, Ic.names.get(2))
+                for cst in Ic.final_states:
+                    w_ = [e for e in cst.event_list() if _is(e, wb)]
+                    good = good and len(w_) == 1 and w_[0].args[1] in (it_, ("ref", ("deref", it_)))
+            if good:
+                continue
+            ok, why = False, "the for_each closure does not hand exactly its chunk to write_bytes"
+            continue
+        if len(deleg) == 1 and not looped and not direct and not fe:
+            continue
+        if len(direct) == 1 and not looped and not fe and not deleg and from_self(direct[0].args[1]) and any(x[0] == "call" and str(x[1]).endswith("::as_bytes") for x in [direct[0].args[1]] + list(subterms(direct[0].args[1]))):
+            continue   # the whole string in one piece (that it fits is V1b's obligation at this call site)
+        if not looped and not fe and not deleg and not direct and _known_empty_seq(st):
+            continue
+        ok, why = False, "a path writes something other than every chunk of the string's bytes once (or returns early for a string that is not known to be empty)"
+    if ok:
+        col.ok("V8" + sfx, b.loc(), key, "every chunk of the string's bytes goes to write_bytes once, in order")
+    else:
+        col.violation("V8" + sfx, key, b.loc(), "%s: %s" % (b.path, why))
+
+
+def _known_empty_seq(st):
+    """the path facts say the sequence being written has no elements: is_empty() answered true, or its len() compared
+    equal to 0"""
+    for f in st.facts:
+        t = f[1]
+        if f[0] not in ("eq", "ne") or not isinstance(t, tuple) or not t or f[2] not in (0, 1) or isinstance(f[2], bool):
+            continue
+        truth = (f[0] == "eq") == bool(f[2])
+        if t[0] == "call" and str(t[1]).endswith("::is_empty") and truth:
+            return True
+        if t[0] == "bin" and t[1] in ("Eq", "Ne") and mk_int(0) in (t[2], t[3]):
+            other = t[3] if t[2] == mk_int(0) else t[2]
+            is_len = isinstance(other, tuple) and other and (other[0] == "len" or (other[0] == "call" and str(other[1]).endswith("::len")))
+            if is_len and truth == (t[1] == "Eq"):
+                return True
+    # ... or its first element does not exist: split_first() / first() / next() on a fresh iterator answered None
+    for f in st.facts:
+        t = f[1]
+        if isinstance(t, tuple) and t and t[0] == "discr" and isinstance(t[1], tuple) and t[1] and t[1][0] == "call" and str(t[1][1]).rsplit("::", 1)[-1] in ("split_first", "first", "next", "split_last", "last"):
+            if (f[0] == "eq" and f[2] == 0 and not isinstance(f[2], bool)) or (f[0] == "ne" and f[2] == 1 and not isinstance(f[2], bool)):
+                return True
+    return False
 
 
 def _digits_cell_form(crate, b, bufl, wb, wc):
@@ -749,7 +847,7 @@ def _digits(col, crate, base10, wb, wc, wr, sfx):
                 col.violation("V6" + sfx, key, b.loc(), "the digit buffer of %s is not [u8; BASE_10_LEN]" % ty)
                 continue
             bufl = bl[0]
-            backs = [s for l in I.backedge_states.values() for s in l]
+            backs = [s for l in I.backedge_states.values() for s in l] + list(I.inl_back)
             if not backs:
                 alt = _digits_cell_form(crate, b, bufl, wb, wc)
                 if alt is not None:
